@@ -183,6 +183,11 @@ fn rerun_text(what: &str) {
         let idx: Vec<usize> = terms.iter().filter_map(|t| pool.terms.iter().position(|p| p == t)).collect();
         let _ = history_once(&pool, &idx, Kind::Sparse);
         let _ = history_once(&pool, &idx, Kind::Dense);
+    } else if let Some(h) = what.strip_prefix("childparent: ") {
+        let terms: Vec<T> = h.split(" ;; ").filter_map(|s| parse_t(s).ok()).collect();
+        if terms.len() == 2 {
+            let _ = check_child_parent(&terms[0], &terms[1]);
+        }
     } else if let Ok(t) = parse_t(what) {
         let _ = term_outcome(&t);
     }
@@ -193,6 +198,14 @@ fn nonterm_violation(rep: &Report, what: &str, waited_ms: u64) {
         let terms: Vec<String> = h.split(" ;; ").map(|s| s.to_string()).collect();
         let last = terms.last().and_then(|s| parse_t(s).ok());
         (last.as_ref().map(sig_shape).unwrap_or_default(), last.as_ref().map(operand_width).unwrap_or(0), json!({"kind": "history", "terms": terms}))
+    } else if let Some(h) = what.strip_prefix("childparent: ") {
+        let terms: Vec<String> = h.split(" ;; ").map(|s| s.to_string()).collect();
+        let last = terms.last().and_then(|s| parse_t(s).ok());
+        (
+            last.as_ref().map(sig_shape).unwrap_or_default(),
+            last.as_ref().map(operand_width).unwrap_or(0),
+            json!({"kind": "child-parent", "child": terms.first().cloned().unwrap_or_default(), "parent": terms.last().cloned().unwrap_or_default()}),
+        )
     } else {
         let t = parse_t(what).ok();
         (t.as_ref().map(sig_shape).unwrap_or_default(), t.as_ref().map(operand_width).unwrap_or(0), json!({"kind": "term", "term": what}))
@@ -467,7 +480,8 @@ pub struct Baseline {
 pub fn baseline(pool: &Pool) -> Baseline {
     let mut refs = vec![];
     let mut st = vec![];
-    for r in pool.refs.iter() {
+    for (i, r) in pool.refs.iter().enumerate() {
+        watch_set(|| pool.terms[i].to_string());
         let mut ctx = pool.base.clone();
         match catch(|| Simp::new(Kind::Sparse).simplify(&mut ctx, *r)) {
             Ok(x) => {
@@ -674,6 +688,7 @@ fn run_histories(rep: &Report, budget: &Budget, max_len: usize) {
 /// context (and both must be fixed points). Long rewrite chains of the child (1-bit add -> xor ->
 /// not(not x) -> x) are what makes stale intermediate cache entries observable.
 fn check_child_parent(c: &T, p: &T) -> (Option<(String, String)>, u64) {
+    watch_set(|| format!("childparent: {c} ;; {p}"));
     let mut calls = 0u64;
     for kind in [Kind::Sparse, Kind::Dense] {
         let mut ctx = Context::default();
@@ -733,6 +748,7 @@ fn run_child_parent(rep: &Report, budget: &Budget, thorough: bool) {
             let (mut pairs, mut calls, mut hs) = (0u64, 0u64, vec![]);
             for (ci, c) in wrap_all(x, &cfg).iter().enumerate() {
                 // only children the simplifier rewrites can leave intermediate cache entries
+                watch_set(|| c.to_string());
                 let mut probe = Context::default();
                 let ce = c.build(&mut probe);
                 let rewritten = catch(|| Simp::new(Kind::Sparse).simplify(&mut probe, ce)).map(|r| r != ce).unwrap_or(false);
